@@ -164,16 +164,16 @@ Proof.
   apply FirstOK_add_cgroup, Hf.
 Qed.
 
-Lemma cstep_First s cr s' : FirstOK s -> cstep fresh s cr = Ok s' -> FirstOK s'.
+Lemma cstep_read_First s cr s' : FirstOK s -> cstep_read fresh s cr = Ok s' -> FirstOK s'.
 Proof.
-  intros Hf. unfold cstep. destruct (r_type (cr_row cr)) as [cls payloads dec0|tgts| | | | |].
+  intros Hf. unfold cstep_read. destruct (r_type (cr_row cr)) as [cls payloads dec0|tgts| | | | |].
   - destruct (match _ with Some p => _ | None => _ end) as [acts n1].
     set (existing := match or_default (cr_uuid cr) (r_node_name (cr_row cr)) with [] => None | _ => _ end).
     set (row_action := if is_basic_kind (cr_kind cr) then _ else None).
     assert (Hnew : forall sx, match new_row_node fresh n1 (cr_kind cr) (cr_uuid cr) acts match payloads with p :: _ => p | [] => L [] end with
                               | Ok (nd, n2) =>
                                 match foldM (fun s' e => cadd_row_edge fresh s' e (Some (cn_uuid nd)))
-                                            match r_edges (cr_row cr) with [] => [] | e0 :: rest => e0 :: filter (fun e => negb (edge_trivial e)) rest end
+                                            (drop_padding (r_edges (cr_row cr)))
                                             (push_node s nd n2) with
                                 | Ok s2 => Ok (set_names (add_cgroup s2 (CGRow (length (cs_nodes s)) [] (rowtype_of (cr_kind cr))) (r_id (cr_row cr)))
                                                          (or_default (cr_uuid cr) (r_node_name (cr_row cr))) (length (cs_nodes s)))
@@ -215,4 +215,7 @@ Proof.
     destruct Hf as (A & (rest & B) & C). rewrite Es, Eh in *. split; [exact A|]. split; [|cbn in *; lia].
     exists rest. cbn. cbn in B, C. destruct outer as [|o r]; [cbn in C; lia|exact B].
 Qed.
+
+Lemma cstep_First s cr s' : FirstOK s -> cstep fresh s cr = Ok s' -> FirstOK s'.
+Proof. unfold cstep. apply cstep_read_First. Qed.
 End First.
